@@ -76,12 +76,18 @@ impl AuthenticatorData {
     /// This sets the [`Flags::AT`] value as well.
     pub fn set_attested_credential_data(mut self, acd: AttestedCredentialData) -> Self {
         self.attested_credential_data = Some(acd);
-        self.set_flags(Flags::AT)
+        self.flags |= Flags::AT;
+        self
     }
 
     /// Set additional [`Flags`] to the authenticator data.
+    ///
+    /// [`Flags::AT`] and [`Flags::ED`] announce a section of the encoding. They are only ever set
+    /// together with that section, by [`Self::set_attested_credential_data`] and the extension
+    /// setters, and are ignored here: otherwise the encoding would announce a section that is
+    /// not there and could not be decoded again.
     pub fn set_flags(mut self, flags: Flags) -> Self {
-        self.flags |= flags;
+        self.flags |= flags - (Flags::AT | Flags::ED);
         self
     }
 
@@ -102,7 +108,8 @@ impl AuthenticatorData {
         self.extensions =
             Some(Value::serialized(&ext).map_err(|_| Ctap2Error::CborUnexpectedType)?);
 
-        Ok(self.set_flags(Flags::ED))
+        self.flags |= Flags::ED;
+        Ok(self)
     }
 
     /// Set assertion authenticator extensions
@@ -117,7 +124,8 @@ impl AuthenticatorData {
         self.extensions =
             Some(Value::serialized(&ext).map_err(|_| Ctap2Error::CborUnexpectedType)?);
 
-        Ok(self.set_flags(Flags::ED))
+        self.flags |= Flags::ED;
+        Ok(self)
     }
 }
 
